@@ -669,6 +669,13 @@ def c06_family(tier):
         fs = [src(N, period=period), sink('snk', ['src'], [('slow', slow)] if slow else []), sink('lis', ['src?;main>x'])]
         mk(f'chain2+listener/src/slow{slow}', fs, ['src'], [0, 300])
 
+    # ... late in the run, when the ids are far from 0 (a restarted source must adopt the id its consumer asks for at once)
+    fs = [src(N, period=20), sink('snk', ['src'], [('slow', 30)]), sink('lis', ['src?;main>x'])]
+    mk('chain2+listener-late/src', fs, ['src'], [0])
+    out[-1]['horizon_ms'] = 2040
+    out[-1]['faults']['from_ms'] = 2000
+    out[-1]['late_d1'] = True
+
     # graceful stop (stop event: shutdown runs, CLOSE is sent, sockets are closed) and restart under the same id
     for v in ['src', 'mid', 'snk']:
         mk(f'chain3-graceful/{v}', ch(False), [v], [300, C06_CT + 200], kinds=('graceful',))
